@@ -5,7 +5,7 @@ from vcheck import fmt_q, fmt_vec, fmt_crs
 import gen
 
 SOLVERS = ["cg", "bicgstab", "richardson", "gmres", "fgmres", "lgmres", "bicgstabl", "idrs"]
-MODELLED = ["cg", "bicgstab", "richardson", "gmres", "fgmres", "lgmres", "bicgstabl"]
+MODELLED = ["cg", "bicgstab", "richardson", "gmres", "fgmres", "lgmres", "bicgstabl", "idrs"]
 SIDED = ["bicgstab", "gmres", "lgmres", "bicgstabl"]
 SQRT_FREE = ["cg", "bicgstab", "richardson"]          # recurrences without square roots: rationals stay small
 ABSTOL_MIN = F(1, 2 ** 1022)                           # numeric_limits<double>::min(), the default abstol
@@ -130,6 +130,43 @@ def truth_line(case_line, payload):
     cid, op, rest = case_line.split(" ", 2)
     it, res, xs = pr
     return "%s o.truth %s %d %s %d %s" % (cid, rest, it, res, len(xs), " ".join(xs))
+
+# ---------------------------------------------------------------- IDR(s): the constructor's random draws
+# The idrs constructor fills its shadow space from std::mt19937.  The Coq model (KrylovIdrs.idrs_shadow / idrs)
+# takes the raw draws as an explicit input: the implementation-side op `idrs.raw n s` prints them (same
+# statements as the constructor) and the MODEL-side case line is the implementation's line with the s raw
+# vectors appended.
+def idrs_key(line):
+    """(n, s) of a solve / seq case line of solver idrs, else None"""
+    tk = line.split(" ")
+    if len(tk) < 4 or tk[2] != "idrs": return None
+    if tk[1] == "solve": base = 5          # id op solver side pk <prm16> A ...
+    elif tk[1] in ("seq", "seqfresh"): base = 4   # id op solver side <prm16> n ncalls ...
+    else: return None
+    try:
+        return int(tk[base + len(PRM_ORDER)]), int(tk[base + PRM_ORDER.index("s")])
+    except (ValueError, IndexError):
+        return None
+
+_RAW = {}
+def idrs_raw(ctx, keys):
+    """{(n, s): 'tokens of the s raw vectors'} from the implementation-side op idrs.raw"""
+    exe = ctx["cpp"]["krylov"]
+    need = sorted(k for k in set(keys) if (exe, k) not in _RAW)
+    if need:
+        res = ctx["run_driver"](exe, ["r%d idrs.raw %d %d" % (i, n, s) for i, (n, s) in enumerate(need)])
+        for i, k in enumerate(need):
+            o = res.get("r%d" % i) or ""
+            if not o.startswith("[") and k[1] > 0: continue       # crash / unsupported: the model line stays short and fails
+            vs = [v.strip().split() for v in o.replace("]", "").split("[")[1:]]
+            _RAW[(exe, k)] = " ".join(" ".join([str(len(v))] + v) for v in vs)
+    return {k: _RAW[(exe, k)] for k in set(keys) if (exe, k) in _RAW}
+
+def with_idrs_raw(ctx, lines):
+    """model-side versions of the case lines: idrs lines get the raw draws appended"""
+    ks = [idrs_key(l) for l in lines]
+    raw = idrs_raw(ctx, [k for k in ks if k])
+    return [(l + " " + raw[k]) if (k and k in raw) else l for l, k in zip(lines, ks)]
 
 def side_for(r, solver): return r.choice(["left", "right"]) if solver in SIDED else "right"
 
